@@ -39,6 +39,7 @@ func mk(t : int) -> [_] : int { {[ t == 0 ? 3 : 2 ]} : int }
 func first(a[D] : int) -> int { a[0] + 4 }
 func pffi(t : int) -> int { t == 0 ? nosuch(t) : 6 }
 func pffi0(t : int) -> int { t == 0 ? nosuch0() : 6 }
+func zero() -> int { 0 }
 '''
 
 # kind -> (exception name, source template over the trigger text, value for trigger T in 1..3)
@@ -59,6 +60,49 @@ KINDS = {
 }
 EXC_NAMES = ["division_by_zero", "wrong_array_size", "index_out_of_bounds", "invalid_domain",
              "nil_pointer", "ffi_fail"]
+
+
+# ---- FFI calls with a record argument whose string / nested-record fields may be nil ------------
+# shape: string over S (string field), R (nested record P2 {x; y}), I (int field)
+FFILIB = "@C03FFILIB@"          # replaced by the path of the library built at check time
+
+def _shapes():
+    import itertools
+    out = ["SR", "RS", "SS", "RR", "SI", "IS", "RI", "IR"]
+    for t in itertools.product("SRI", repeat=3):
+        w = "".join(t)
+        if "S" in w and "R" in w:
+            out.append(w)
+    out += ["SRSR", "RSRS", "SSRR", "RRSS", "SRRI", "ISRS"]
+    return out
+
+FFI_SHAPES = _shapes()
+
+
+def ffi_decls():
+    """Never declarations shared by every FFI-record program"""
+    t = ["record P2 { x : int; y : int; }",
+         "func nilp() -> P2 { nil }",
+         "func prp(t : int) -> P2 { if (t == 0) { nilp() } else { P2(3, 4) } }"]
+    for sh in FFI_SHAPES:
+        flds = " ".join("f%d : %s;" % (i, {"S": "string", "R": "P2", "I": "int"}[c]) for i, c in enumerate(sh))
+        t.append("record T_%s { %s }" % (sh, flds))
+        t.append('extern "%s" func c_%s(t : T_%s) -> int' % (FFILIB, sh, sh))
+    return "\n".join(t) + "\n"
+
+
+def ffi_lib_source():
+    """C source of the callee library: every callee has a side effect (prints its marker) and returns a
+    value computed from all the fields it received"""
+    t = ["#include <stdio.h>", "#include <string.h>", "typedef struct { int x; int y; } P2;"]
+    for n, sh in enumerate(FFI_SHAPES):
+        flds = " ".join("%s f%d;" % ({"S": "const char *", "R": "P2", "I": "int"}[c], i) for i, c in enumerate(sh))
+        terms = []
+        for i, c in enumerate(sh):
+            terms.append({"S": "(t.f%d ? (int)strlen(t.f%d) : -1000)" % (i, i), "R": "t.f%d.x + t.f%d.y" % (i, i), "I": "t.f%d" % i}[c])
+        t.append("typedef struct { %s } T_%s;" % (flds, sh))
+        t.append('int c_%s(T_%s t) { printf("%%d\\n", %d); fflush(stdout); return %s; }' % (sh, sh, 7000 + n, " + ".join(terms)))
+    return "\n".join(t) + "\n"
 
 
 class NevExc(Exception):
@@ -95,6 +139,18 @@ class Id3:
 class Flt:
     def __init__(s, kind, t): s.kind, s.t = kind, t
     def src(s): return KINDS[s.kind][1](s.t.src())
+
+class Zero:             # zero(): 0, but not a constant the compiler can fold
+    def src(s): return "zero()"
+
+class FfiRec:           # c_<shape>(T_<shape>(...)) with the fields listed in `nils` nil
+    def __init__(s, shape, nils): s.shape, s.nils = shape, set(nils)
+    def src(s):
+        a = []
+        for i, c in enumerate(s.shape):
+            t = 0 if i in s.nils else 1
+            a.append({"S": "pstr(%d)" % t, "R": "prp(%d)" % t, "I": "(zero() + 2)"}[c])
+        return "c_%s(T_%s(%s))" % (s.shape, s.shape, ", ".join(a))
 
 class Call:
     def __init__(s, f, args): s.f, s.args = f, args
@@ -142,17 +198,23 @@ class Func:
 
 
 class Program:
-    def __init__(s, funcs, coords):
+    def __init__(s, funcs, coords, tops=(), decls=""):
         s.funcs, s.coords = funcs, coords      # funcs: top-level, main last
+        s.tops = list(tops)                    # module-level `let name = expr`, evaluated in order before main
+        s.decls = decls
 
     def src(s):
-        return HELPERS + "\n" + "\n\n".join(f.src() for f in s.funcs) + "\n"
+        t = HELPERS + s.decls + "\n" + "\n\n".join(f.src() for f in s.funcs[:-1])
+        if s.tops:
+            t += "\n;\n" + "\n".join("let %s = %s;" % (n, e.src()) for n, e in s.tops)
+        return t + "\n\n" + s.funcs[-1].src() + "\n"
 
 
 # ------------------------------------------------------------------ the oracle
 
 class Interp:
     def __init__(s, prog):
+        s.prog = prog
         s.top = {f.name: f for f in prog.funcs}
         s.out = []
         s.faults = 0
@@ -161,6 +223,9 @@ class Interp:
     def run(s):
         """-> ('result', v) | ('unhandled', exception name); s.out = markers printed"""
         try:
+            # module-level initialisers run first, in order; no function is active: nothing can catch
+            for _n, e in s.prog.tops:
+                s.ev(e, {})
             return ("result", s.call(s.top["main"], {}, []))
         except NevExc as ex:
             return ("unhandled", ex.kind)
@@ -228,6 +293,14 @@ class Interp:
             for i in (2, 1, 0):                    # arguments right to left
                 vs[i] = s.ev(e.args[i], env)
             return vs[0] + vs[1] + vs[2]
+        if isinstance(e, Zero):
+            return 0
+        if isinstance(e, FfiRec):
+            if e.nils:                              # a nil string / nil nested record cannot be marshalled:
+                s.faults += 1                       # ffi_fail BEFORE the C function is entered
+                raise NevExc("ffi_fail")
+            s.out.append(7000 + FFI_SHAPES.index(e.shape))
+            return sum({"S": 5, "R": 7, "I": 2}[c] for c in e.shape)
         if isinstance(e, Flt):
             t = s.ev(e.t, env)
             if t == 0:
@@ -306,14 +379,14 @@ class Gen:
                 Ex(Bin("+", Bin("+", V("r"), V("loc")), V("p")))]
         return Func(name, [("p", True), ("q", False)], body, clauses, catch_all)
 
-    def chain(s, kind, k, d, j, order, trig=0, hf=None, dmid=None):
+    def chain(s, kind, k, d, j, order, trig=0, hf=None, dmid=None, fexpr=None, exc=None, toplevel=False, decls=""):
         """main -> fa -> fb -> fc; fc faults (kind) as the k-th argument of a call nested d deep;
         the function j levels above fc (0 = fc itself ... 3 = main) has the clause; order says
         where in its clause list; 'absent' = nobody has one.
         hf = (kind2, where): the matching clause itself faults with kind2; where in
         {'later': a later clause of the same function takes it, 'caller': the caller's, 'none'}"""
         rng = s.rng
-        exc = KINDS[kind][0]
+        exc = exc or KINDS[kind][0]
         names = ["fc", "fb", "fa", "main"]
         extra = None
         exc2 = None
@@ -339,7 +412,7 @@ class Gen:
         fc_body = [Var("loc", N(rng.randint(1, 9))),
                    Asg("p", Bin("+", V("p"), N(rng.randint(1, 5)))),
                    Ex(Pm(N(s.marker()))),
-                   Var("r", s.wrap(Flt(kind, V("q")), d, k)),
+                   Var("r", s.wrap(fexpr if fexpr is not None else Flt(kind, V("q")), d, k)),
                    Ex(Pm(N(s.marker()))),
                    Ex(Bin("+", Bin("+", V("r"), V("loc")), V("p")))]
         fc = Func("fc", [("p", True), ("q", False)], fc_body, *cl[0])
@@ -355,7 +428,26 @@ class Gen:
         mall = [Ex(Pm(N(9909))), Ex(N(40009))] if cl[3][1] is not None else None
         main = Func("main", [], main_body, mcl, mall)
         coords = "%s:k%dd%dj%d:%s" % (kind, k, d, j, order) + (":hf-%s-%s" % hf if hf else "") + (":t%d" % trig if trig else "")
-        return Program([fc, fb, fa, main], coords)
+        if toplevel:
+            # the chain is entered from a module-level initialiser instead of from main
+            targ = Zero() if trig == 0 else Bin("+", Zero(), N(trig))
+            tops = [("g1", Pm(N(s.marker()))),
+                    ("g2", s.wrap(Call("fa", [Bin("+", Zero(), N(rng.randint(1, 9))), targ]), rng.randint(0, 2), rng.randint(0, 2))),
+                    ("g3", Pm(N(s.marker())))]
+            main = Func("main", [], [Ex(Pm(N(s.marker()))), Ex(N(rng.randint(1, 99)))])
+            return Program([fc, fb, fa, main], "toplevel-via:" + coords, tops=tops, decls=decls)
+        return Program([fc, fb, fa, main], coords, decls=decls)
+
+    def toplevel_direct(s, kind, k, d, trig=0):
+        """the fault is raised by a module-level initialiser itself (k-th argument of a call nested d deep)"""
+        rng = s.rng
+        targ = Zero() if trig == 0 else Bin("+", Zero(), N(trig))
+        tops = [("g1", Pm(N(s.marker()))),
+                ("g2", s.wrap(Flt(kind, targ), d, k)),
+                ("g3", Pm(N(s.marker())))]
+        main = Func("main", [], [Ex(Pm(N(s.marker()))), Ex(N(rng.randint(1, 99)))])
+        idf = Func("idf", [("a", False)], [Ex(Bin("+", V("a"), N(1)))])
+        return Program([idf, main], "toplevel-direct:%s:k%dd%d" % (kind, k, d) + (":t%d" % trig if trig else ""), tops=tops)
 
     def loop(s, kind, k, d, at, n, own):
         """fault at iteration `at` of a loop of n iterations inside fc (k-th argument, d deep); fc
@@ -426,7 +518,7 @@ class Gen:
         return Program([fc, main], "recursion:%s:depth%d" % (kind, depth))
 
 
-def family(seed, tier):
+def family(seed, tier, ffilib=False):
     """-> list of Program; deterministic in (seed, tier)"""
     rng = random.Random((seed * 1000003) ^ 0xC03)
     g = Gen(rng)
@@ -467,6 +559,38 @@ def family(seed, tier):
             progs.append(g.closure(kind, rng.randint(0, 2), rng.randint(0, 3), where, lam=False))
         progs.append(g.closure(kind, rng.randint(0, 2), rng.randint(0, 2), rng.choice(["outer", "inner"]), lam=True))
         progs.append(g.recursion(kind, rng.randint(2, 4), 0))
+    # 7. faults in module-level initialisers: raised there directly, or rethrown into them out of the
+    #    functions they call (with / without clauses on the way); a separate generator so that the
+    #    programs above do not depend on this section
+    rng2 = random.Random((seed * 7919) ^ 0x70B)
+    g2 = Gen(rng2)
+    for ki, kind in enumerate(kinds):
+        for d in ((0, 1, 3) if tier == "quick" else (0, 1, 2, 3)):
+            progs.append(g2.toplevel_direct(kind, rng2.randint(0, 2) if d else 0, d))
+        progs.append(g2.toplevel_direct(kind, rng2.randint(0, 2), rng2.randint(1, 2), trig=rng2.randint(1, 3)))
+        for order in (("absent", "first", "all") if tier == "quick" else ("absent", "first", "last", "all", "only")):
+            d = rng2.randint(0, 3)
+            progs.append(g2.chain(kind, rng2.randint(0, 2) if d else 0, d, rng2.randint(0, 2), order, toplevel=True))
+        progs.append(g2.chain(kind, 0, 1, 0, "first", trig=rng2.randint(1, 3), toplevel=True))
+    # 8. FFI calls with a record argument: a nil string / nil nested record in every position relative to
+    #    the non-nil fields must end in ffi_fail before the callee is entered
+    if ffilib:
+        decls = ffi_decls()
+        for si, sh in enumerate(FFI_SHAPES):
+            if tier == "quick" and len(sh) == 3 and (si + seed) % 2:
+                continue
+            nullable = [i for i, c in enumerate(sh) if c in "SR"]
+            variants = [()] + [(i,) for i in nullable]
+            if len(nullable) > 1:
+                variants.append(tuple(nullable))
+                variants.append(tuple(nullable[1:]))
+            for nils in variants:
+                d = rng2.randint(0, 2)
+                order = rng2.choice(["first", "last", "all", "only"]) if rng2.random() < 0.85 else "absent"
+                p = g2.chain("ffirec", rng2.randint(0, 2) if d else 0, d, rng2.randint(0, 2), order, trig=1,
+                             fexpr=FfiRec(sh, nils), exc="ffi_fail", decls=decls)
+                p.coords = "ffirec:%s:nil%s:%s" % (sh, "".join(map(str, nils)) or "-", p.coords.split(":", 1)[1].replace(":t1", ""))
+                progs.append(p)
     # 6. random rest
     extra = 60 if tier == "quick" else 2500
     for _ in range(extra):
